@@ -204,3 +204,16 @@ def run(chk, prog):
     chk.require(okc, "DELEG-PREFIX", "Closure.__call__", "dyn_args prepended", derived=show(r.ret)[:200], expected="self.fn(*self.dyn_args, *args, **kwargs)", where=chk.where(cl.module, cl.methods["__call__"]))
     chk.require("dyn_args" in cl.fields and "dyn_args" not in cl.static_fields and "fn" in cl.static_fields, "PYTREE-FIELDS", "Closure", "dyn_args dynamic, fn static",
                 derived=f"fields={cl.fields} static={sorted(cl.static_fields)}", expected="dyn_args dynamic; fn static", where=f"{cl.module.rel}:{cl.node.lineno}")
+    # keyword calling convention: argdiffs arrive as the PAIR (positional tuple, keyword dict); a change test applied to the elements of that pair
+    # (`all(static_check_no_change(d) for d in argdiffs if isinstance(d, Diff))`) is vacuously true for it - shortcut guards must test the whole argdiffs tree
+    from ..gfi import distribution as _dist
+    from ..gfi.common import Obs as _Obs
+
+    _o = _Obs()
+    _dist.analyse(_o, prog)
+    _n = 0
+    for it_ in _o.items:
+        if "C32" in it_["props"]:
+            _n += 1
+            chk.require(it_["ok"], it_["rule"], it_["instance"], it_["construct"], derived=it_["derived"], expected=it_["expected"], where=it_["where"])
+    chk.floor("distribution obligations tagged C32", _n, 1)
